@@ -2,6 +2,7 @@ import Driver.Proto
 import LadimModel.IBM.Sedimentation
 import LadimModel.IBM.Bio
 import LadimModel.IBM.Memory
+import LadimModel.IBM.Grain
 namespace Driver
 open Ladim
 
@@ -113,10 +114,20 @@ def hMemStuck : Handler := do
   let p ← getN; let x ← getF; let y ← getF
   pure (outB (Memory.stuck mem ⟨p, x, y⟩))
 
+/-- `grain.cell lon0 dlon imax lon` -/
+def hGrainCell : Handler := do
+  let lon0 ← getF; let dlon ← getF; let imax ← getI; let lon ← getF
+  pure (outI (Grain.nearestCell lon0 dlon imax lon))
+
+/-- `grain.taucrit method sed` (0 = bin (float32), 1 = poly) -/
+def hGrainTaucrit : Handler := do
+  let m ← getN; let sed ← getF
+  pure (outF (if m == 0 then Grain.taucritBinF32 sed else Grain.taucritPoly sed))
+
 def ibmHandlers : List (String × Handler) :=
   [("sed.update", hSedUpdate), ("mine.update", hMineUpdate), ("sed.tau", hSedTau),
    ("egg.update", hEgg), ("lice.update", hLice), ("larva.update", hLarva),
    ("sandeel.z", hSandeelZ), ("eel.z", hEelZ), ("shrimp.vert", hShrimpVert),
-   ("shrimp.growth", hShrimpGrowth), ("vps.z", hVpsZ), ("vps.update", hVpsUpdate), ("mem.stuck", hMemStuck)]
+   ("shrimp.growth", hShrimpGrowth), ("vps.z", hVpsZ), ("vps.update", hVpsUpdate), ("mem.stuck", hMemStuck), ("grain.cell", hGrainCell), ("grain.taucrit", hGrainTaucrit)]
 
 end Driver
